@@ -334,6 +334,16 @@ def _run_floats(sh, params, bulk):
     n32 = 400 if tier == "quick" else 6000
     v32 = (10.0 ** rn.uniform(-37, 38, n32) * rn.choice([-1, 1], n32)).astype(np.float32)
     v32 = v32[np.isfinite(v32) & (v32 != 0)]
+    # float32 neighbours of every decade 1e-9..1e17 (where the formatters' branch
+    # thresholds sit): a float32 scalar compared with a Python constant is compared in
+    # float32 precision, so a threshold can be crossed by the input type alone (f3846fe)
+    edge = []
+    for e in range(-9, 18):
+        c = np.float32(10.0 ** e)
+        edge += [c, np.nextafter(c, np.float32(0)), np.nextafter(c, np.float32(np.inf))]
+    edge = np.array(edge + [-x for x in edge], dtype=np.float32)
+    fc.c("cell:scalar:float32-decade-neighbours", len(edge))
+    v32 = np.concatenate([edge, v32])
     for v in v32:
         sh.case(["f32", float(v).hex()], True)
         fc.one(v, "np.float32", "float32")
